@@ -57,6 +57,7 @@ var whitelist = []entry{
 	{file: "fs.go", name: "Mode", recv: "StatInfo"},
 	{file: "fs.go", name: "ModTime", recv: "StatInfo"},
 	{file: "fs.go", name: "IsDir", recv: "StatInfo"},
+	{file: "diff_containerd.go", name: "pathChange"},
 	{file: "diff_containerd.go", name: "sameFile", externs: map[string]extern{
 		// reads both files: the result of sameFile is stated for every behaviour of this function
 		"compareFileContent": {params: []Ty{{k: kString}, {k: kString}}, res: []Ty{{k: kBool}, {k: kError}}},
@@ -88,10 +89,11 @@ type Ty struct {
 	k    kind
 	bits int
 	name string // kStruct: the struct's name; otherwise advisory (the named type, e.g. os.FileMode, DiffType)
+	opt  bool   // kStruct only: the pointer may be nil (the function compares it with nil) -> option T
 }
 
 func (t Ty) eq(u Ty) bool {
-	return t.k == u.k && t.bits == u.bits && (t.k != kStruct || t.name == u.name)
+	return t.k == u.k && t.bits == u.bits && (t.k != kStruct || (t.name == u.name && t.opt == u.opt))
 }
 
 func (t Ty) coq() string {
@@ -111,6 +113,9 @@ func (t Ty) coq() string {
 	case kStat:
 		return "Stat.stat"
 	case kStruct:
+		if t.opt {
+			return "option " + ident(t.name)
+		}
 		return ident(t.name)
 	case kTime:
 		return "Prims.time"
@@ -260,6 +265,19 @@ func (e *env) declare(n ast.Node, name string, ty Ty) error {
 	e.scopes[top] = append(e.scopes[top], variable{name, ty})
 	return nil
 }
+
+// retype changes the type of the innermost variable called name (nil-ness refinement under a guard)
+func (e *env) retype(name string, ty Ty) {
+	for i := len(e.scopes) - 1; i >= 0; i-- {
+		for j := len(e.scopes[i]) - 1; j >= 0; j-- {
+			if e.scopes[i][j].name == name {
+				e.scopes[i][j].ty = ty
+				return
+			}
+		}
+	}
+}
+
 func (e *env) all() []variable {
 	var out []variable
 	for _, s := range e.scopes {
@@ -492,7 +510,7 @@ func (t *tr) typeOf(e ast.Expr) (Ty, error) {
 		}
 	case *ast.SelectorExpr:
 		if p, ok := x.X.(*ast.Ident); ok && p.Name == "os" && x.Sel.Name == "FileMode" {
-			return Ty{kUint, 32, "os.FileMode"}, nil
+			return Ty{k: kUint, bits: 32, name: "os.FileMode"}, nil
 		}
 		if p, ok := x.X.(*ast.Ident); ok && p.Name == "time" && x.Sel.Name == "Time" {
 			return Ty{k: kTime}, nil
@@ -673,6 +691,9 @@ func (t *tr) expr(e ast.Expr, ev *env) (val, error) {
 			if f, ok := statFields[x.Sel.Name]; ok {
 				return val{code: "(" + f.coq + " " + r.code + ")", ty: f.ty}, nil
 			}
+		}
+		if r.ty.k == kStruct && r.ty.opt {
+			return val{}, bad(e, "field read through %s, which may be nil here (no enclosing `== nil` / `!= nil` test of exactly this variable)", r.code)
 		}
 		if r.ty.k == kStruct {
 			if fty, ok := t.structField(r.ty.name, x.Sel.Name); ok {
@@ -1458,12 +1479,33 @@ func (t *tr) stmts(list []ast.Stmt, c *ctx, ev *env, d int) (string, error) {
 			body = append(body, x.Init, &ast.IfStmt{If: x.If, Cond: x.Cond, Body: x.Body, Else: x.Else})
 			return t.stmts(concat(body, popMark, rest), c, ev, d)
 		}
-		cv, err := t.expr(x.Cond, ev)
-		if err != nil {
-			return "", err
+		// nil test of a possibly-nil struct pointer: a match that rebinds the variable, as the struct itself, in
+		// the branch where it is not nil (there, and in the copy of the following code, fields can be read)
+		nilVar, nilIsThen := "", false
+		if be, ok := x.Cond.(*ast.BinaryExpr); ok && (be.Op == token.EQL || be.Op == token.NEQ) {
+			l, lok := be.X.(*ast.Ident)
+			r, rok := be.Y.(*ast.Ident)
+			if lok && rok {
+				if l.Name == "nil" {
+					l, r = r, l
+				}
+				if vt, isVar := ev.lookup(l.Name); isVar && r.Name == "nil" && vt.k == kStruct && vt.opt {
+					if _, shadowed := ev.lookup("nil"); !shadowed {
+						nilVar, nilIsThen = l.Name, be.Op == token.EQL
+					}
+				}
+			}
 		}
-		if cv.ty.k != kBool {
-			return "", bad(x.Cond, "condition of type %s", cv.ty)
+		var cv val
+		if nilVar == "" {
+			var err error
+			cv, err = t.expr(x.Cond, ev)
+			if err != nil {
+				return "", err
+			}
+			if cv.ty.k != kBool {
+				return "", bad(x.Cond, "condition of type %s", cv.ty)
+			}
 		}
 		var els []ast.Stmt
 		switch e := x.Else.(type) {
@@ -1476,6 +1518,15 @@ func (t *tr) stmts(list []ast.Stmt, c *ctx, ev *env, d int) (string, error) {
 			return "", bad(x, "else form")
 		}
 		ev1, ev2 := ev.clone(), ev.clone()
+		if nilVar != "" {
+			vt, _ := ev.lookup(nilVar)
+			vt.opt = false
+			if nilIsThen {
+				ev2.retype(nilVar, vt)
+			} else {
+				ev1.retype(nilVar, vt)
+			}
+		}
 		a, err := t.stmts(concat([]ast.Stmt{x.Body}, popMark, rest), c, ev1, d+1)
 		if err != nil {
 			return "", err
@@ -1484,7 +1535,23 @@ func (t *tr) stmts(list []ast.Stmt, c *ctx, ev *env, d int) (string, error) {
 		if err != nil {
 			return "", err
 		}
+		if nilVar != "" {
+			if !nilIsThen {
+				a, b = b, a
+			}
+			return fmt.Sprintf("%smatch %s with\n%s| None =>\n%s\n%s| Some %s =>\n%s\n%send", ind(d), ident(nilVar), ind(d), a, ind(d), ident(nilVar), b, ind(d)), nil
+		}
 		return fmt.Sprintf("%s%sif %s then\n%s\n%selse\n%s", pre, ind(d), cv.code, a, ind(d), b), nil
+	case *ast.ExprStmt:
+		// panic(..): the function has no result on this path
+		if ce, ok := x.X.(*ast.CallExpr); ok {
+			if id, ok := ce.Fun.(*ast.Ident); ok && id.Name == "panic" {
+				if _, isVar := ev.lookup("panic"); !isVar && c.oof != "" {
+					return ind(d) + c.oof, nil
+				}
+			}
+		}
+		return "", bad(s, "expression statement outside the subset (only panic(..))")
 	case *ast.SwitchStmt:
 		return t.switchStmt(x, rest, c, ev, d)
 	case *ast.ForStmt, *ast.RangeStmt:
@@ -2113,6 +2180,25 @@ func hasLoopOrOptCall(t *tr, fd *ast.FuncDecl) bool {
 				if f, ok := t.funcs[id.Name]; ok && f.opt {
 					found = true
 				}
+				if id.Name == "panic" {
+					found = true
+				}
+			}
+		}
+		return true
+	})
+	return found
+}
+
+// comparedWithNil: the body contains `name == nil` or `name != nil` (either order)
+func comparedWithNil(body ast.Node, name string) bool {
+	found := false
+	ast.Inspect(body, func(m ast.Node) bool {
+		if be, ok := m.(*ast.BinaryExpr); ok && (be.Op == token.EQL || be.Op == token.NEQ) {
+			l, lok := be.X.(*ast.Ident)
+			r, rok := be.Y.(*ast.Ident)
+			if lok && rok && ((l.Name == name && r.Name == "nil") || (l.Name == "nil" && r.Name == name)) {
+				found = true
 			}
 		}
 		return true
@@ -2193,6 +2279,10 @@ func (t *tr) function(fd *ast.FuncDecl, e entry) (string, error) {
 			return "", bad(f, "unnamed parameter")
 		}
 		for _, n := range f.Names {
+			ty := ty
+			if ty.k == kStruct && comparedWithNil(fd.Body, n.Name) {
+				ty.opt = true // the function tests this pointer against nil: it is an option
+			}
 			sig.params = append(sig.params, ty)
 			pn := ident(n.Name)
 			if n.Name == "_" {
@@ -2261,7 +2351,7 @@ func (t *tr) function(fd *ast.FuncDecl, e entry) (string, error) {
 	}
 	optNote := ""
 	if sig.opt {
-		optNote = "  Contains loops: result in option, None = a loop ran out of its fuel."
+		optNote = "  Result in option: None = a loop ran out of its fuel, or an explicit panic(..) was reached."
 	}
 	exNote := ""
 	if len(exNames) > 0 {
